@@ -97,7 +97,7 @@ def _gen_value(rng, r, c, depth=0):
             elif spec["dt"] in ("i8", "i4"):
                 spec["dt"] = "f4"
         if kind == "dense2d" and rng.random() < 0.3:
-            spec["lay"] = str(rng.choice(["F", "strided", "T"]))
+            spec["lay"] = str(rng.choice(["F", "strided", "T", "Fstrided", "Tsliced"]))
         return spec
     if kind in ("csr", "csc", "coo"):
         spec["v"] = _vals(rng, r, c)
@@ -277,6 +277,16 @@ def _build_value(spec, r, c):
             h = big[::2, ::2]
         elif isinstance(h, np.ndarray) and lay == "T":
             h = np.ascontiguousarray(h.T).T
+        elif isinstance(h, np.ndarray) and lay == "Fstrided":
+            # a strided view of a column-major array: column-major in memory, but not contiguous
+            big = np.asfortranarray(np.zeros((2 * r, 2 * c), dtype=h.dtype))
+            big[::2, ::2] = h
+            h = big[::2, ::2]
+        elif isinstance(h, np.ndarray) and lay == "Tsliced":
+            # a slice of a transpose (e.g. part of a transposed Jacobian)
+            big = np.zeros((c + 2, r + 1), dtype=h.dtype)
+            big[:c, :r] = h.T
+            h = big.T[:r, :c]
         return h, a
     if k == "dense1d":
         a = np.array(spec["v"], dtype=float).reshape(1, -1) * SCALE["x"]
